@@ -38,3 +38,341 @@ class SUP(NS):
     def __exit__(self, t, v, tb):
         LOG.append((self.k, 'exit', t.__name__ if t else ''))
         return t is not None and issubclass(t, Exception)
+
+
+# ------------------------------------------------------------------------------------------ C22 support
+class EA(Exception):
+    pass
+
+
+class EB(EA):
+    pass
+
+
+class EC(Exception):
+    pass
+
+
+_USER = ('EA', 'EB', 'EC', 'KeyError', 'ExceptionGroup', 'BaseExceptionGroup')
+
+
+def _ei():
+    t, v = sys.exc_info()[:2]
+    if t is None:
+        return ('-', '')
+    return (t.__name__, _args(v))
+
+
+def _args(v):
+    if isinstance(v, BaseExceptionGroup):
+        return repr(v.args[0]) + repr([(type(x).__name__, _args(x)) for x in v.exceptions])
+    return repr(v.args) if type(v).__name__ in _USER else ''
+
+
+def LG(k):
+    """Log point: site + the exception currently being handled (type, args)."""
+    LOG.append((k,) + _ei())
+
+
+def HELP(k):
+    """A plain-Python helper that raises."""
+    LOG.append((k, 'help') + _ei())
+    raise EA(k)
+
+
+class CM:
+    def __init__(self, k, suppress, raise_in_exit):
+        self.k, self.suppress, self.raise_in_exit = k, suppress, raise_in_exit
+
+    def __enter__(self):
+        LOG.append((self.k, 'enter') + _ei())
+        return self
+
+    def __exit__(self, t, v, tb):
+        LOG.append((self.k, 'exit', t.__name__ if t else '-', _args(v) if v is not None else '',
+                    'tb' if tb is not None else 'notb') + _ei())
+        if self.raise_in_exit:
+            raise EC(self.k)
+        return self.suppress
+
+
+def chain(e, depth=0, seen=()):
+    """(type, args, cause, context, suppress_context, sub-exceptions) recursively."""
+    if e is None:
+        return None
+    if id(e) in seen or depth > 8:
+        return ('cycle',)
+    seen = seen + (id(e),)
+    sub = ()
+    if isinstance(e, BaseExceptionGroup):
+        sub = tuple(chain(x, depth + 1, seen) for x in e.exceptions)
+    return (type(e).__name__, _args(e), chain(e.__cause__, depth + 1, seen), chain(e.__context__, depth + 1, seen),
+            bool(e.__suppress_context__), sub)
+
+
+class W22:
+    """Callable wrapper exported by the generated modules: runs f in a clean state (mode 0) or while a
+    KeyError('outer') is being handled (mode 1); returns what was propagated, logs exc_info afterwards."""
+    def __init__(self, f):
+        self.f = f
+
+    def __call__(self, mode):
+        if mode == 0:
+            return self._run()
+        try:
+            raise KeyError('outer')
+        except KeyError:
+            r = self._run()
+            LOG.append(('back',) + _ei())
+            return r
+
+    def _run(self):
+        try:
+            r = self.f()
+        except BaseException as e:
+            out = ('raised', chain(e))
+        else:
+            out = ('returned', r)
+        LOG.append(('after',) + _ei())
+        return out
+
+
+# ------------------------------------------------------------------------------------------ C01 support
+class Obj:
+    """Attribute bag with a stable repr."""
+    def __repr__(self):
+        return 'Obj(%s)' % ', '.join('%s=%r' % kv for kv in sorted(vars(self).items()))
+
+
+class CMV:
+    """Context manager yielding its argument; logs enter/exit."""
+    def __init__(self, v):
+        self.v = v
+
+    def __enter__(self):
+        LOG.append(('cm', 'enter', repr(self.v)))
+        return self.v
+
+    def __exit__(self, t, v, tb):
+        LOG.append(('cm', 'exit', t.__name__ if t else '-'))
+        return False
+
+
+def D(x):
+    """Digest of a possibly huge value: exact for everything printable, size-independent for big ints."""
+    if type(x) is int and x.bit_length() > 2000:
+        return ('bigint', x.bit_length(), x % 1000000007, x & 0xFFFFFFFF, x > 0)
+    if type(x) is tuple:
+        return tuple(D(v) for v in x)
+    return (type(x).__name__, repr(x))
+
+
+# ------------------------------------------------------------------------------------------ C31 support
+import enum as _enum, collections as _collections, collections.abc as _abc, array as _array, dataclasses as _dc
+
+
+class Color(_enum.Enum):
+    RED = 0
+    GREEN = 1
+
+
+class NSK:
+    K = 0
+    S = 'ab'
+    F = 1.5
+
+
+class Point:
+    __match_args__ = ('x', 'y')
+
+    def __init__(self, x, y):
+        self.x, self.y = x, y
+
+    def __repr__(self):
+        return 'Point(%r, %r)' % (self.x, self.y)
+
+
+class OnlyX:
+    """Has attribute x but no y and no __match_args__."""
+    def __init__(self, x):
+        self.x = x
+
+    def __repr__(self):
+        return 'OnlyX(%r)' % (self.x,)
+
+
+class SubPoint(Point):
+    pass
+
+
+class BadMA:
+    __match_args__ = ['x']      # a list: TypeError when used positionally
+    x = 0
+
+    def __repr__(self):
+        return 'BadMA()'
+
+
+class BadMA2:
+    __match_args__ = (1,)       # non-str element: TypeError when used positionally
+    x = 0
+
+    def __repr__(self):
+        return 'BadMA2()'
+
+
+@_dc.dataclass
+class DP:
+    x: object
+    y: object
+
+
+class PropPoint:
+    """x is a logging property, y raises AttributeError."""
+    __match_args__ = ('x', 'y')
+
+    @property
+    def x(self):
+        LOG.append(('PropPoint', 'get x', ''))
+        return 0
+
+    @property
+    def y(self):
+        LOG.append(('PropPoint', 'get y', ''))
+        raise AttributeError('y')
+
+    def __repr__(self):
+        return 'PropPoint()'
+
+
+# PEP 634 leaves the number and order of __len__/__getitem__/get/keys calls made while matching to the
+# implementation (CPython itself unpacks by iteration for some patterns and indexes for others), so the protocol
+# methods of the subjects below are deliberately NOT logged; what is compared is which case matched and the bindings.
+class MySeq(_abc.Sequence):
+    def __init__(self, items):
+        self.items = list(items)
+
+    def __len__(self):
+        return len(self.items)
+
+    def __getitem__(self, i):
+        return self.items[i]
+
+    def __repr__(self):
+        return 'MySeq(%r)' % (self.items,)
+
+
+class VirtSeq:
+    def __init__(self, items):
+        self.items = list(items)
+
+    def __len__(self):
+        return len(self.items)
+
+    def __getitem__(self, i):
+        return self.items[i]
+
+    def __repr__(self):
+        return 'VirtSeq(%r)' % (self.items,)
+
+
+_abc.Sequence.register(VirtSeq)
+
+
+class NotSeq:
+    """Quacks like a sequence, is not registered: must not match sequence patterns."""
+    def __init__(self, items):
+        self.items = list(items)
+
+    def __len__(self):
+        return len(self.items)
+
+    def __getitem__(self, i):
+        return self.items[i]
+
+    def __repr__(self):
+        return 'NotSeq(%r)' % (self.items,)
+
+
+class MyMap(_abc.Mapping):
+    def __init__(self, d):
+        self.d = dict(d)
+
+    def __getitem__(self, k):
+        return self.d[k]
+
+    def __iter__(self):
+        return iter(self.d)
+
+    def __len__(self):
+        return len(self.d)
+
+    def get(self, k, default=None):
+        return self.d.get(k, default)
+
+    def keys(self):
+        return self.d.keys()
+
+    def __repr__(self):
+        return 'MyMap(%r)' % (self.d,)
+
+
+class EqLog:
+    def __init__(self, v):
+        self.v = v
+
+    def __eq__(self, other):
+        LOG.append(('EqLog', 'eq', repr(other)))
+        return self.v == other
+
+    __hash__ = None
+
+    def __repr__(self):
+        return 'EqLog(%r)' % (self.v,)
+
+
+class IntSub31(int):
+    def __repr__(self):
+        return 'IntSub31(%d)' % int(self)
+
+
+class StrSub31(str):
+    def __repr__(self):
+        return 'StrSub31(%s)' % str.__repr__(self)
+
+
+def G(k, v):
+    """Guard probe: logs and returns v."""
+    LOG.append(('guard', k, repr(v)))
+    return v
+
+
+SUBJECTS = {
+    'i0': lambda: 0, 'i1': lambda: 1, 'im1': lambda: -1, 'big': lambda: 2 ** 70, 'T': lambda: True, 'F': lambda: False,
+    'N': lambda: None, 'f15': lambda: 1.5, 'f0': lambda: 0.0, 'c12': lambda: 1 + 2j,
+    'sab': lambda: 'ab', 'se': lambda: '', 'bab': lambda: b'ab', 'ba': lambda: bytearray(b'ab'),
+    'l0': lambda: [], 'l1': lambda: [0], 'l2': lambda: [0, 1], 'l3': lambda: [0, 1, 2], 'lab': lambda: ['ab', 0],
+    'lnest': lambda: [[0], 'ab'], 't0': lambda: (), 't1': lambda: (0,), 't2': lambda: (0, 1), 'tn': lambda: (None, 0),
+    'dq': lambda: _collections.deque([0, 1]), 'rng': lambda: range(2), 'arr': lambda: _array.array('i', [0, 1]),
+    'myseq': lambda: MySeq([0, 1]), 'virtseq': lambda: VirtSeq([0, 1]), 'notseq': lambda: NotSeq([0, 1]),
+    'd0': lambda: {}, 'dk': lambda: {'k': 0}, 'dkj': lambda: {'k': 0, 'j': 1}, 'd1a': lambda: {1: 2, 'a': 0},
+    'dab': lambda: {'ab': 0, 'k': 'ab'}, 'od': lambda: _collections.OrderedDict(k=0, j=1),
+    'dd': lambda: _collections.defaultdict(int), 'mymap': lambda: MyMap({'k': 0, 'j': 1}),
+    'p01': lambda: Point(0, 1), 'p10': lambda: Point(1, 0), 'sp': lambda: SubPoint(0, 0), 'onlyx': lambda: OnlyX(0),
+    'badma': lambda: BadMA(), 'badma2': lambda: BadMA2(), 'dp': lambda: DP(0, 1), 'prop': lambda: PropPoint(),
+    'red': lambda: Color.RED, 'isub': lambda: IntSub31(0), 'ssub': lambda: StrSub31('ab'), 'eqlog': lambda: EqLog(0),
+}
+
+
+class W31:
+    """Callable exported by the generated C31 modules: builds the subject from its key, calls f, and (for
+    defaultdict subjects) appends the keys present afterwards (mapping patterns must not insert keys)."""
+    def __init__(self, f):
+        self.f = f
+
+    def __call__(self, key):
+        s = SUBJECTS[key]()
+        r = self.f(s)
+        if isinstance(s, dict):
+            LOG.append(('subject-after', repr(sorted(map(repr, s)))))
+        return r
